@@ -54,6 +54,9 @@ func literalOf(v ssa.Value) (*ssa.Alloc, func()) {
 func phiVia(v ssa.Value, fn *ssa.Function) (*ssa.Phi, *ssa.Function, func()) {
 	nop := func() {}
 	if p, ok := v.(*ssa.Phi); ok {
+		if p.Parent() != nil {
+			return p, p.Parent(), nop // a bound helper parameter may resolve to the caller's phi
+		}
 		return p, fn, nop
 	}
 	cl, idx := ir.CallOf(v)
@@ -73,6 +76,9 @@ func phiVia(v ssa.Value, fn *ssa.Function) (*ssa.Phi, *ssa.Function, func()) {
 		ret, ok := b.Instrs[len(b.Instrs)-1].(*ssa.Return)
 		if !ok || idx >= len(ret.Results) {
 			continue
+		}
+		if _, isK := ret.Results[idx].(*ssa.Const); isK && len(ret.Results) > 1 {
+			continue // the zero returned beside an error
 		}
 		n++
 		phi, _ = ret.Results[idx].(*ssa.Phi)
